@@ -57,7 +57,7 @@ def enrich(g, it):
                     m.attrs.append(Instr(r.choice(["map", "from", "into"]), "map", container=c, member=f"M{k}", action=None))
                 elif roll < 0.6 and m.shape != "unit":
                     m.attrs.append(Instr("ghosts", "ghosts", container=c, entries=[dict(path=None, ident=(f"g{k}" if m.shape == "named" else len(m.fields) + cps.index(c)), action=f"k{k}()")]))
-                elif roll < 0.8:
+                elif roll < 0.8 and not any(a.kind == "type_hint" and a.container() == c for a in m.attrs):
                     m.attrs.append(Instr("type_hint", "type_hint", container=c, hint=r.choice(["()", "{}"]) if m.shape != "tuple" else "()"))
                 else:
                     m.attrs.append(Instr(r.choice(["ghost", "ghost_owned"]), "ghost", container=c, action=f"k{k}()", braced=True))
